@@ -24,6 +24,17 @@ def scratch_copy(repo):
             shutil.copytree(src, os.path.join(d, name))
         else:
             shutil.copy2(src, os.path.join(d, name))
+    # cargo decides freshness by comparing source mtimes (relative to the package root) with the mtime of the
+    # previous build's dep-info in the target directory.  The target directories persist between runs while the
+    # scratch path changes, so a copy that preserved the (old) mtimes of /repo would be taken for unchanged and a
+    # stale artifact of a previous, different tree would be verified.  Every copied file gets mtime = now.
+    now = time.time()
+    for root, _dirs, files in os.walk(d):
+        for fn in files:
+            try:
+                os.utime(os.path.join(root, fn), (now, now))
+            except OSError:
+                pass
     os.makedirs(os.path.join(d, '.cargo'), exist_ok=True)
     with open(os.path.join(d, '.cargo', 'config.toml'), 'w') as f:
         f.write('[net]\noffline = true\n')
